@@ -225,4 +225,3 @@ func ruleSplitViaScanner(c *Ctx, splitFn *ssa.Function) {
 	}
 	c.judge(len(probs) == 0, "R-SPLIT-VIA-SCANNER", "shell.Split:results", splitFn.Pos(), "fields = Scanner.Split(), ok = Scanner.Complete() of the same scanner on every return", fmt.Sprint(probs)+": part of the input bypasses the table-driven tokenizer")
 }
-
